@@ -1,6 +1,6 @@
-(* Proofs for C01 (osu!mania codec): arithmetic of the column<->x mapping with the binary64 divisor,
+(* Proofs for C01 (osu!mania codec): arithmetic of the column<->x mapping,
    code<->value inverses, int() truncation (bounds, idempotence, no drift), line-level codec theorems,
-   the metadata second-colon refutation.  Whole-file statements: see the _partial remarks at the end. *)
+   metadata values (text after the first colon).  Whole-file statements: see the _partial remarks at the end. *)
 From Coq Require Import String Ascii.
 From Coq Require Import ZArith QArith Qround Qabs List Bool Lia Lqa Qfield.
 From RV Require Import Base.PyNum Base.Text Formats.Osu Formats.OsuSpec.
@@ -22,87 +22,22 @@ Lemma in_keys k : 1 <= k <= 18 -> forall P, forallb P keys_range = true -> P k =
 Proof. intros Hk P H. apply (forallb_zrange P 1 18 H). simpl. lia. Qed.
 
 (* ------------------------------------------------------------------ column <-> x *)
-(* facts about the binary64 divisors, by computation over the 18 key counts *)
-Definition colw_facts (k : Z) : bool :=
-  Qlt_bool 0 (colw k) && Qle_bool (inject_Z (k - 1) * colw k) 512.
-Lemma colw_facts_ok : forallb colw_facts keys_range = true.
-Proof. vm_compute. reflexivity. Qed.
+(* x_axis_to_column is integer arithmetic: the model's column IS the format's column, for every key
+   count and every integer x (no guard) *)
+Theorem x_to_col_exact k x : x_to_col x k = column_of x k.
+Proof. unfold x_to_col, column_of. lia. Qed.
 
-Lemma colw_pos k : 1 <= k <= 18 -> (0 < colw k)%Q.
+(* every x inside a column's range maps to that column, clamping outside *)
+Theorem x_in_range_col k x c : 0 <= c < k -> in_column_range x c k -> x_to_col x k = c.
+Proof. intros Hc R. unfold x_to_col, in_column_range in *. lia. Qed.
+Theorem x_clamped k x : 1 <= k -> (x < 0 -> x_to_col x k = 0) /\ (512 <= x -> x_to_col x k = k - 1).
 Proof.
-  intro H. pose proof (in_keys k H colw_facts colw_facts_ok) as F. unfold colw_facts in F.
-  apply andb_true_iff in F. destruct F as [F _]. apply Qlt_bool_iff in F. exact F.
-Qed.
-Lemma colw_top k : 1 <= k <= 18 -> (inject_Z (k - 1) * colw k <= 512)%Q.
-Proof.
-  intro H. pose proof (in_keys k H colw_facts colw_facts_ok) as F. unfold colw_facts in F.
-  apply andb_true_iff in F. destruct F as [_ F]. apply Qle_bool_iff in F. exact F.
+  intro Hk. unfold x_to_col. split; intro H.
+  - assert (x * k / 512 < 0) by (apply Z.div_lt_upper_bound; nia). lia.
+  - assert (k <= x * k / 512) by (apply Z.div_le_lower_bound; nia). lia.
 Qed.
 
-(* inside 0 <= x < 512: exhaustive, with the single exception keys = 10, x = 256 *)
-Definition sweep_ok (k : Z) : bool :=
-  forallb (fun x => ((k =? 10) && (x =? 256)) || (x_to_col x k =? column_of x k)) (zrange 0 512).
-Lemma sweep_all : forallb sweep_ok keys_range = true.
-Proof. vm_compute. reflexivity. Qed.
-
-Lemma x_to_col_inside k x : 1 <= k <= 18 -> 0 <= x < 512 -> ~ (k = 10 /\ x = 256) ->
-  x_to_col x k = column_of x k.
-Proof.
-  intros Hk Hx G. pose proof (in_keys k Hk sweep_ok sweep_all) as S. unfold sweep_ok in S.
-  pose proof (forallb_zrange _ 0 512 S x ltac:(simpl; lia)) as E. simpl in E.
-  apply orb_true_iff in E. destruct E as [E|E].
-  - apply andb_true_iff in E. destruct E as [E1 E2]. apply Z.eqb_eq in E1. apply Z.eqb_eq in E2. tauto.
-  - apply Z.eqb_eq in E. exact E.
-Qed.
-
-Lemma x_to_col_below k x : 1 <= k <= 18 -> x < 0 -> x_to_col x k = 0 /\ column_of x k = 0.
-Proof.
-  intros Hk Hx. pose proof (colw_pos k Hk) as W. split.
-  - unfold x_to_col.
-    assert (L: (inject_Z x / colw k < 0)%Q).
-    { apply Qlt_shift_div_r; auto. rewrite Qmult_0_l. change 0%Q with (inject_Z 0). rewrite <- Zlt_Qlt. exact Hx. }
-    pose proof (Qfloor_le (inject_Z x / colw k)) as F.
-    assert (F2: (inject_Z (Qfloor (inject_Z x / colw k)) < inject_Z 0)%Q) by (change (inject_Z 0) with 0%Q; lra).
-    rewrite <- Zlt_Qlt in F2. lia.
-  - unfold column_of. assert (x * k / 512 < 0) by (apply Z.div_lt_upper_bound; nia). lia.
-Qed.
-
-Lemma x_to_col_above k x : 1 <= k <= 18 -> 512 <= x -> x_to_col x k = k - 1 /\ column_of x k = k - 1.
-Proof.
-  intros Hk Hx. pose proof (colw_pos k Hk) as W. pose proof (colw_top k Hk) as T. split.
-  - unfold x_to_col.
-    assert (L: (inject_Z (k - 1) <= inject_Z x / colw k)%Q).
-    { apply Qle_shift_div_l; auto. assert ((512 <= inject_Z x)%Q) by (change 512%Q with (inject_Z 512); rewrite <- Zle_Qle; exact Hx). lra. }
-    apply Qfloor_resp_le in L. rewrite Qfloor_Z in L. lia.
-  - unfold column_of. assert (k <= x * k / 512) by (apply Z.div_le_lower_bound; nia). lia.
-Qed.
-
-(* the model's column (binary64 divisor) is the format's column for EVERY integer x and every key count,
-   except at the single point keys = 10, x = 256 *)
-Theorem x_to_col_exact k x : 1 <= k <= 18 -> ~ (k = 10 /\ x = 256) -> x_to_col x k = column_of x k.
-Proof.
-  intros Hk G. destruct (Z_lt_le_dec x 0) as [L|L].
-  - destruct (x_to_col_below k x Hk L) as [A B]. congruence.
-  - destruct (Z_lt_le_dec x 512) as [U|U].
-    + apply x_to_col_inside; auto.
-    + destruct (x_to_col_above k x Hk U) as [A B]. congruence.
-Qed.
-
-(* every x inside a column's range maps to that column (guarded), clamping outside *)
-Theorem x_in_range_col k x c : 1 <= k <= 18 -> 0 <= c < k -> in_column_range x c k ->
-  ~ (k = 10 /\ x = 256) -> x_to_col x k = c.
-Proof.
-  intros Hk Hc R G. rewrite x_to_col_exact by auto. unfold column_of, in_column_range in *. lia.
-Qed.
-Theorem x_clamped k x : 1 <= k <= 18 -> (x < 0 -> x_to_col x k = 0) /\ (512 <= x -> x_to_col x k = k - 1).
-Proof. intro Hk. split; intro H; [apply (x_to_col_below k x Hk H)|apply (x_to_col_above k x Hk H)]. Qed.
-
-(* the unguarded statement is FALSE of the faithful model (and of the code): witness keys = 10, x = 256 *)
-Theorem x_in_range_col_refuted :
-  exists k x c, 1 <= k <= 18 /\ 0 <= c < k /\ in_column_range x c k /\ x_to_col x k <> c.
-Proof. exists 10, 256, 5. unfold in_column_range. vm_compute. repeat split; congruence. Qed.
-
-(* writing a column and reading it back: all key counts, all columns *)
+(* writing a column and reading it back: all key counts 1..18, all columns *)
 Definition inverse_ok (k : Z) : bool :=
   forallb (fun c => (x_to_col (col_to_x c k) k =? c) && (col_to_x c k * k / 512 =? c)) (zrange 0 (Z.to_nat k)).
 Lemma inverse_all : forallb inverse_ok keys_range = true.
@@ -121,6 +56,28 @@ Proof.
   pose proof (forallb_zrange _ 0 (Z.to_nat k) S c ltac:(lia)) as E. simpl in E.
   apply andb_true_iff in E. destruct E as [_ E]. apply Z.eqb_eq in E. exact E.
 Qed.
+
+(* HISTORICAL: the OLD x_axis_to_column (before repo commit 36d1b4c) divided by the binary64 value of
+   512 / keys; that variant mis-assigned exactly one point.  Not part of the model any more. *)
+Module OldColumn.
+  Definition colw_table : list Q :=
+    [(512#1); (256#1); (6004799503160661#35184372088832); (128#1); (3602879701896397#35184372088832);
+     (6004799503160661#70368744177664); (2573485501354569#35184372088832); (64#1);
+     (2001599834386887#35184372088832); (3602879701896397#70368744177664); (3275345183542179#70368744177664);
+     (6004799503160661#140737488355328); (1385722962267845#35184372088832); (2573485501354569#70368744177664);
+     (4803839602528529#140737488355328); (32#1); (4238682002231055#140737488355328);
+     (2001599834386887#70368744177664)]%Q.
+  Definition colw (k : Z) : Q := nth (Z.to_nat (k - 1)) colw_table (512 / inject_Z k)%Q.
+  Definition x_to_col_old (x k : Z) : Z := Z.max (Z.min (Qfloor (inject_Z x / colw k)) (k - 1)) 0.
+  Theorem old_x_in_range_col_refuted :
+    exists k x c, 1 <= k <= 18 /\ 0 <= c < k /\ in_column_range x c k /\ x_to_col_old x k <> c.
+  Proof. exists 10, 256, 5. unfold in_column_range. vm_compute. repeat split; congruence. Qed.
+  (* inside 0 <= x < 512 it was the only one *)
+  Theorem old_only_one_point :
+    forallb (fun k => forallb (fun x => ((k =? 10) && (x =? 256)) || (x_to_col_old x k =? column_of x k)) (zrange 0 512))
+            keys_range = true.
+  Proof. vm_compute. reflexivity. Qed.
+End OldColumn.
 
 Lemma Qfloor_div_Z a k : 0 < k -> Qfloor (inject_Z a / inject_Z k) = a / k.
 Proof.
@@ -330,23 +287,22 @@ Proof.
 Qed.
 
 (* reading back a written hit line: the reader returns the note with its time truncated by int() *)
-Theorem read_write_hit n k : k <> 0 -> sep_free (n_file n) ->
+Theorem read_write_hit n k : sep_free (n_file n) ->
   exists m, read_hit (write_hit n k) k = Some m /\
     (n_off m == inject_Z (qtrunc (n_off n)))%Q /\ n_col m = x_to_col (col_to_x (n_col n) k) k /\
     n_hs m = n_hs n /\ n_ss m = n_ss n /\ n_as m = n_as n /\ n_cs m = n_cs n /\ n_vol m = n_vol n /\
     n_file m = n_file n.
 Proof.
-  intros Hk H. destruct (write_hit_classified n k H) as [CL _]. destruct (hit_params_ok n H) as [P1 P2].
+  intros H. destruct (write_hit_classified n k H) as [CL _]. destruct (hit_params_ok n H) as [P1 P2].
   destruct (py_float_show_int (qtrunc (n_off n))) as [q [Fq Eq]].
   unfold read_hit. rewrite CL. cbn [negb]. cbv zeta. unfold write_hit. fold (hit_params n).
   rewrite (split_note_line _ _ _ _ _ (hit_params n) (hit_fields_ok n k (t "1") eq_refl eq_refl) P1).
   cbn [last_text last]. rewrite (split_join COLON (hit_params n)) by (try discriminate; exact P2).
   unfold hit_params. cbn [nth_text obind]. rewrite Fq. cbn [obind]. rewrite !py_int_show_int. cbn [obind].
-  apply Z.eqb_neq in Hk. rewrite Hk.
   eexists. split; [reflexivity|]. cbn. repeat split; auto.
 Qed.
 
-Theorem read_write_hold n k : k <> 0 -> sep_free (n_file n) ->
+Theorem read_write_hold n k : sep_free (n_file n) ->
   exists m, read_hold (write_hold n k) k = Some m /\
     (n_off m == inject_Z (qtrunc (n_off n)))%Q /\
     (n_off m + n_len m == inject_Z (qtrunc (n_off n + n_len n)))%Q /\
@@ -354,14 +310,13 @@ Theorem read_write_hold n k : k <> 0 -> sep_free (n_file n) ->
     n_hs m = n_hs n /\ n_ss m = n_ss n /\ n_as m = n_as n /\ n_cs m = n_cs n /\ n_vol m = n_vol n /\
     n_file m = n_file n.
 Proof.
-  intros Hk H. destruct (write_hold_classified n k H) as [CL _]. destruct (hold_params_ok n H) as [P1 P2].
+  intros H. destruct (write_hold_classified n k H) as [CL _]. destruct (hold_params_ok n H) as [P1 P2].
   destruct (py_float_show_int (qtrunc (n_off n))) as [q [Fq Eq]].
   destruct (py_float_show_int (qtrunc (n_off n + n_len n))) as [e [Fe Ee]].
   unfold read_hold. rewrite CL. cbn [negb]. cbv zeta. unfold write_hold. fold (hit_params n). fold (hold_params n).
   rewrite (split_note_line _ _ _ _ _ (hold_params n) (hit_fields_ok n k (t "128") eq_refl eq_refl) P1).
   cbn [last_text last]. rewrite (split_join COLON (hold_params n)) by (try discriminate; exact P2).
   unfold hold_params, hit_params. cbn [nth_text obind]. rewrite Fq, Fe. cbn [obind]. rewrite !py_int_show_int. cbn [obind].
-  apply Z.eqb_neq in Hk. rewrite Hk. cbn [obind].
   eexists. split; [reflexivity|]. cbn [n_off n_len n_col n_hs n_ss n_as n_cs n_vol n_file].
   repeat split; auto. rewrite Qred_correct, Eq, Ee. ring.
 Qed.
@@ -370,7 +325,7 @@ Qed.
 Corollary read_write_hit_column n k : 1 <= k <= 18 -> 0 <= n_col n < k -> sep_free (n_file n) ->
   exists m, read_hit (write_hit n k) k = Some m /\ n_col m = n_col n.
 Proof.
-  intros Hk Hc H. destruct (read_write_hit n k ltac:(lia) H) as [m [R [_ [C _]]]].
+  intros Hk Hc H. destruct (read_write_hit n k H) as [m [R [_ [C _]]]].
   exists m. split; auto. rewrite C. apply x_col_inverse; auto.
 Qed.
 
@@ -402,19 +357,30 @@ Proof.
   - destruct (Z.eqb_spec x c) as [E|E]; [exfalso; apply H; left; auto|].
     rewrite IH by (intro I; apply H; right; exact I). reflexivity.
 Qed.
+Lemma cut_first_is_cut_at c s : cut_first c s = cut_at c s.
+Proof. induction s as [|x s IH]; simpl; auto; try (rewrite IH; reflexivity). Qed.
 
-(* the model's  k, *v = line.split(":"); v = v[0]  against the format's cut at the first colon:
-   they agree exactly when the value contains no further colon ... *)
-Theorem meta_value_agrees key v : ~ In COLON key -> ~ In COLON v ->
-  hd [] (split_on COLON (key ++ COLON :: v)) = key /\
-  nth_text (split_on COLON (key ++ COLON :: v)) 1 = Some v /\
+(* the model's  k, *v = line.split(":", 1); v = v[0]  yields key and EVERYTHING after the first colon,
+   whatever the value contains - exactly the format's cut *)
+Theorem meta_value_first_colon key v : ~ In COLON key ->
+  hd [] (split_once COLON (key ++ COLON :: v)) = key /\
+  nth_text (split_once COLON (key ++ COLON :: v)) 1 = Some v /\
   cut_first COLON (key ++ COLON :: v) = Some (key, v).
 Proof.
-  intros Hk Hv. rewrite split_on_app by exact Hk. rewrite (split_on_no_sep COLON v Hv).
-  rewrite cut_first_app by exact Hk. repeat split; reflexivity.
+  intro Hk. rewrite split_once_app by exact Hk. rewrite cut_first_app by exact Hk. repeat split; reflexivity.
 Qed.
-(* ... and with a second colon the model keeps only the piece between the first two *)
-Theorem meta_value_truncated key v1 v2 : ~ In COLON key -> ~ In COLON v1 ->
+(* on every line the model's (key, value) is the format's (key, value) *)
+Theorem meta_line_cut line :
+  match cut_first COLON line with
+  | Some (k, v) => hd [] (split_once COLON line) = k /\ nth_text (split_once COLON line) 1 = Some v
+  | None => hd [] (split_once COLON line) = line /\ nth_text (split_once COLON line) 1 = None
+  end.
+Proof.
+  rewrite cut_first_is_cut_at. unfold split_once. destruct (cut_at COLON line) as [[a b]|]; split; reflexivity.
+Qed.
+(* HISTORICAL: the OLD parse  line.split(":")  (before repo commit ac204a5) kept only the piece between
+   the first two colons *)
+Theorem old_meta_value_truncated key v1 v2 : ~ In COLON key -> ~ In COLON v1 ->
   nth_text (split_on COLON (key ++ COLON :: v1 ++ COLON :: v2)) 1 = Some v1 /\
   cut_first COLON (key ++ COLON :: v1 ++ COLON :: v2) = Some (key, v1 ++ COLON :: v2).
 Proof.
@@ -422,35 +388,22 @@ Proof.
   rewrite cut_first_app by exact Hk. split; reflexivity.
 Qed.
 
-(* the property's statement "metadata values containing ':'" is FALSE of the faithful model (and of the
-   code): a well-formed text whose Title is "Re:Zero" is read with Title "Re" *)
+(* the former failing inputs are now read as the format defines *)
 Definition colon_witness : list text :=
   [t "[Metadata]"; t "Title:Re:Zero"; t "[Difficulty]"; t "CircleSize:4"; t "[TimingPoints]"; t "[HitObjects]"].
-Theorem meta_roundtrip_refuted :
+Theorem colon_value_reads :
   wf_read_text colon_witness = true /\
   match osu_read colon_witness, osu_denote colon_witness with
-  | Some c, Some d => denotes 0 d c = false
-                      /\ meta_str (c_meta c) IX_TITLE = t "Re"
-                      /\ nth IX_TITLE (d_meta d) None = Some (MStr (t "Re:Zero"))
+  | Some c, Some d => denotes 0 d c = true /\ meta_str (c_meta c) IX_TITLE = t "Re:Zero"
   | _, _ => False
   end.
 Proof. vm_compute. repeat split; reflexivity. Qed.
-
-(* the same text without the second colon is read as the format defines *)
-Definition colon_free_witness : list text :=
-  [t "[Metadata]"; t "Title:Re;Zero"; t "[Difficulty]"; t "CircleSize:4"; t "[TimingPoints]"; t "[HitObjects]"].
-Lemma colon_free_reads : 
-  match osu_read colon_free_witness, osu_denote colon_free_witness with
-  | Some c, Some d => denotes 0 d c = true | _, _ => False end.
-Proof. vm_compute. reflexivity. Qed.
-
-(* the column defect as a whole-text witness: keys = 10, x = 256 *)
 Definition xcol_witness : list text :=
   [t "[Difficulty]"; t "CircleSize:10"; t "[TimingPoints]"; t "[HitObjects]"; t "256,192,0,1,0,0:0:0:0:"].
-Theorem read_column_refuted :
+Theorem boundary_column_reads :
   wf_read_text xcol_witness = true /\
   match osu_read xcol_witness, osu_denote xcol_witness with
-  | Some c, Some d => denotes 0 d c = false /\ map n_col (c_hits c) = [4] /\ map n_col (d_hits d) = [5]
+  | Some c, Some d => denotes 0 d c = true /\ map n_col (c_hits c) = [5]
   | _, _ => False
   end.
 Proof. vm_compute. repeat split; reflexivity. Qed.
